@@ -394,6 +394,46 @@ func snapDiff(a, b []byte) string {
 	return "entries equal, framing differs"
 }
 
+// diffWhere names the key space / table / index (or family) of the first key
+// that differs between two snapshots; it refines violation signatures.
+func diffWhere(a, b []byte) string {
+	ka, ok1 := decodeSnap(a)
+	kb, ok2 := decodeSnap(b)
+	if !ok1 || !ok2 {
+		return "undecodable"
+	}
+	name := func(k []byte) string {
+		if len(k) < 9 {
+			return fmt.Sprintf("key-%x", k)
+		}
+		if len(k) >= 11 {
+			return fmt.Sprintf("space%02x-table%d-id%d", k[4], binary.BigEndian.Uint32(k[5:9]), binary.BigEndian.Uint16(k[9:11]))
+		}
+		return fmt.Sprintf("space%02x-table%d", k[4], binary.BigEndian.Uint32(k[5:9]))
+	}
+	i, j := 0, 0
+	for i < len(ka) && j < len(kb) {
+		c := bytes.Compare(ka[i].k, kb[j].k)
+		switch {
+		case c < 0:
+			return name(ka[i].k)
+		case c > 0:
+			return name(kb[j].k)
+		case !bytes.Equal(ka[i].v, kb[j].v):
+			return name(ka[i].k)
+		}
+		i++
+		j++
+	}
+	if i < len(ka) {
+		return name(ka[i].k)
+	}
+	if j < len(kb) {
+		return name(kb[j].k)
+	}
+	return "framing"
+}
+
 func snapEntries(data []byte) int {
 	k, ok := decodeSnap(data)
 	if !ok {
@@ -424,4 +464,91 @@ func containsU16(xs []uint16, v uint16) bool {
 		}
 	}
 	return false
+}
+
+// semanticDump reads the hash slot through the typed read API (an observation
+// that does not depend on the snapshot exporter).
+func (n *node) semanticDump(hs uint16) string {
+	ctx := context.Background()
+	s := n.db.ForHashSlot(hs)
+	var b strings.Builder
+	note := func(what string, err error) {
+		if err != nil && !errors.Is(err, metadb.ErrNotFound) {
+			fmt.Fprintf(&b, "%s:ERR(%s);", what, errClass(err))
+		}
+	}
+	for _, uid := range simUIDs {
+		if u, err := s.GetUser(ctx, uid); err == nil {
+			fmt.Fprintf(&b, "user%+v;", u)
+		} else {
+			note("user "+uid, err)
+		}
+		for flag := int64(0); flag < 3; flag++ {
+			if d, err := s.GetDevice(ctx, uid, flag); err == nil {
+				fmt.Fprintf(&b, "dev%+v;", d)
+			} else {
+				note("device "+uid, err)
+			}
+		}
+		if ms, _, _, err := s.ListUserChannelMembershipPage(ctx, uid, metadb.UserChannelMembershipCursor{}, 50); err == nil {
+			for _, m := range ms {
+				fmt.Fprintf(&b, "mem%+v;", m)
+			}
+		} else {
+			note("memberships "+uid, err)
+		}
+		if ms, _, _, err := s.ListUserCMDChannelMembershipPage(ctx, uid, metadb.UserCMDChannelMembershipCursor{}, 50); err == nil {
+			for _, m := range ms {
+				fmt.Fprintf(&b, "cmdmem%+v;", m)
+			}
+		} else {
+			note("cmd memberships "+uid, err)
+		}
+		if bs, err := s.ListPluginBindingsByUID(ctx, uid); err == nil {
+			for _, x := range bs {
+				fmt.Fprintf(&b, "plugin%+v;", x)
+			}
+		} else {
+			note("plugins "+uid, err)
+		}
+	}
+	for _, id := range simChannels {
+		if c, err := s.GetChannel(ctx, id, 2); err == nil {
+			fmt.Fprintf(&b, "chan%+v;", c)
+		} else {
+			note("channel "+id, err)
+		}
+		if subs, err := s.ListSubscribersSnapshot(ctx, id, 2); err == nil {
+			fmt.Fprintf(&b, "subs %s %v;", id, subs)
+		} else {
+			note("subscribers "+id, err)
+		}
+		if l, err := s.GetChannelLatest(ctx, id, 2); err == nil {
+			fmt.Fprintf(&b, "latest%+v;", l)
+		} else {
+			note("latest "+id, err)
+		}
+	}
+	if metas, _, _, err := s.ListChannelRuntimeMetaPage(ctx, metadb.ChannelRuntimeMetaCursor{}, 100); err == nil {
+		for i := range metas {
+			fmt.Fprintf(&b, "rt %s/%d %s;", metas[i].ChannelID, metas[i].ChannelType, rtString(&metas[i]))
+		}
+	} else {
+		note("runtime metas", err)
+	}
+	if tasks, err := s.ListChannelMigrationTasks(ctx); err == nil {
+		for i := range tasks {
+			fmt.Fprintf(&b, "task %s %s;", tasks[i].ChannelID, taskString(&tasks[i]))
+		}
+	} else {
+		note("tasks", err)
+	}
+	for _, id := range []string{"chA", "chB"} {
+		if t, ok, err := s.GetActiveChannelMigrationTask(ctx, id, 2); err == nil && ok {
+			fmt.Fprintf(&b, "active %s=%s;", id, t.TaskID)
+		} else {
+			note("active "+id, err)
+		}
+	}
+	return b.String()
 }
